@@ -382,9 +382,12 @@ def is_float_t(t):
 class NanEval:
     """Kleene evaluation of guards with one parameter set to NaN."""
 
-    def __init__(self, f, pidx):
+    def __init__(self, f, pidx, prog=None, depth=0):
         self.f = f
-        self.pd = f.params[pidx]['d']
+        self.prog = prog
+        self.depth = depth
+        # pidx: index of the NaN parameter, or a collection of indexes (inlined helper)
+        self.pds = {f.params[i]['d'] for i in ([pidx] if isinstance(pidx, int) else pidx)}
         self.tainted = self._taint()
 
     def _dep(self, nid):
@@ -395,7 +398,7 @@ class NanEval:
         k = n['k']
         t = n.get('t', '')
         if k == 'DeclRefExpr':
-            return n.get('d') == self.pd or n.get('d') in self.tainted
+            return n.get('d') in self.pds or n.get('d') in self.tainted
         if not is_float_t(t) and k not in ('ImplicitCastExpr',):
             return False
         if k in ('IntegerLiteral', 'FloatingLiteral'):
@@ -476,7 +479,31 @@ class NanEval:
                 return 'T'
             if nm in ('isfinite', 'isinf', 'isnormal') and n.get('args') and self._dep(n['args'][0]):
                 return 'F'
+        if k in ('CallExpr', 'CXXMemberCallExpr'):
+            return self._inline(n)
         return 'U'
+
+    def _inline(self, n):
+        """a call of a small in-repo predicate (body: a single return of a boolean expression) is decided by
+        evaluating that expression with the parameters bound to NaN-carrying arguments set to NaN."""
+        ce = n.get('callee') or {}
+        callee = self.prog.fns.get(ce.get('usr')) if self.prog is not None else None
+        if callee is None or self.depth >= 3 or callee.d.get('body', -1) < 0:
+            return 'U'
+        if callee.d.get('ret', '').replace('const ', '').strip() != 'bool':
+            return 'U'
+        rets = [i for i, m in callee.all_nodes() if m['k'] == 'ReturnStmt']
+        stmts = [i for i, m in callee.all_nodes()
+                 if m['k'] in ('IfStmt', 'ForStmt', 'WhileStmt', 'DoStmt', 'SwitchStmt', 'CXXTryStmt', 'CXXThrowExpr')]
+        if len(rets) != 1 or stmts or not callee.nodes[rets[0]]['ch']:
+            return 'U'
+        args = n.get('args', [])
+        off = 1 if (n.get('ckind') == 'operator' and ce.get('method')) else 0
+        nanp = [ai for ai, a in enumerate(args[off:]) if ai < len(callee.params) and self._dep(a)]
+        if not nanp:
+            return 'U'
+        # the helper must not reassign its parameters (single return, no control flow: check stores)
+        return NanEval(callee, nanp, self.prog, self.depth + 1).ev(callee.nodes[rets[0]]['ch'][0])
 
 
 def guards_of(f, nid):
@@ -527,7 +554,7 @@ def rule_X4(ctx, files=None):
         if not fparams:
             continue
         fl = ctx.flow(f)
-        evs = {pi: NanEval(f, pi) for pi in fparams}
+        evs = {pi: NanEval(f, pi, ctx.prog) for pi in fparams}
         for t in throws:
             if any(f.nodes[a]['k'] == 'CXXCatchStmt' for a in f.ancestors(t)):
                 continue
@@ -768,7 +795,7 @@ ROLE_OF = {'a': 'radius', 'f': 'flattening', 'k0': 'scale', 'k1': 'scale', 'k': 
 BAD = {'radius': [NAN, INF, -INF, 0.0, -1.0],
        'flattening': [NAN, INF, -INF, 1.0, 2.0],
        'scale': [NAN, INF, -INF, 0.0, -1.0],
-       'latitude': [NAN, 91.0, -91.0, INF],
+       'latitude': [NAN, 91.0, -91.0, INF, -INF, 300.0, 450.0, -270.0, 360.0, 1e10],   # incl. aliases mod 360 with cos >= 0
        'sine': [NAN, 2.0, -2.0],
        'cosine': [NAN, -0.5, 2.0]}
 GOOD = {'radius': 6378137.0, 'flattening': 1 / 298.257223563, 'scale': 0.9996, 'latitude': 40.0,
@@ -842,8 +869,8 @@ def rule_X5(ctx):
                     for bi, bv in zip(bools, cb):
                         args[bi] = bv
                     args[i] = w
-                    outs = ip.explore(f, args)
-                    if 'budget' in outs:
+                    outs = ip.explore(f, args, stop_on_ok=True)     # one accepting path settles the question
+                    if 'budget' in outs and 'ok' not in outs:
                         raise AnalysisBroken('X5: exploration budget exceeded in %s' % f.q)
                     if 'ok' in outs:
                         bad_paths.append(dict(zip([f.params[b]['name'] for b in bools], cb)))
